@@ -773,6 +773,9 @@ func (mpt *MerklePatriciaTrie) insertAfterPathTraversal(value MPTSerializable, n
 func (mpt *MerklePatriciaTrie) deleteAfterPathTraversal(node Node) (Node, Key, error) {
 	switch nodeImpl := node.(type) {
 	case *FullNode:
+		if !nodeImpl.HasValue() {
+			return nil, nil, ErrValueNotPresent // There is nothing to delete
+		}
 		// The value of the branch needs to be updated
 		nnode := nodeImpl.Clone().(*FullNode)
 		nnode.SetValue(nil)
@@ -789,7 +792,8 @@ func (mpt *MerklePatriciaTrie) deleteAfterPathTraversal(node Node) (Node, Key, e
 		}
 		return nil, nil, nil
 	case *ExtensionNode:
-		panic("this should not happen!")
+		// the path ends inside the trie on a node that cannot hold a value
+		return nil, nil, ErrValueNotPresent
 	default:
 		panic(fmt.Sprintf("unknown node type: %T %v", node, node))
 	}
